@@ -333,6 +333,18 @@ func Packets(thorough bool, yield func(n *wire.N)) {
 		n  *wire.N
 	}{{0x0800, IPv4(17, 0, Udp(18))}, {0x0800, IPv4(1, 4, Icmp(8, 8))}, {0x0800, IPv4(6, 0, Tcp(4))}, {0x86dd, IPv6(nil, 17, Udp(12))},
 		{0x86dd, IPv6([]*wire.N{Hbh(0, Option(5, 2), Option(1, 0)), Fragment(0, 0, 0)}, 58, Icmp(135, 20))}, {0x0806, Arp(1)}, {0x88cc, Opaque(15)}, {0x0842, Opaque(102)}, {0x88b5, Opaque(46)}, {0x88b5, Opaque(0)}}
+	// ethertypes that look like a further tag behind the (single) 802.1Q tag the library models: the
+	// frame's payload is whatever follows the first tag, opaque, starting with 0x8100 / 0x88a8 / 0x9100
+	for _, et := range []uint64{0x8100, 0x88a8, 0x9100} {
+		for _, pl := range []*wire.N{Opaque(46), wire.New("opaque").SetB("Data", append([]byte{0x20, 0x05, 0x08, 0x00, 0x45, 0, 0, 20}, Payload(38)...))} {
+			for _, v := range []*wire.N{Vlan(3, 0, 100), Vlan(7, 1, 0xfff)} {
+				yield(Eth(v, et, pl.Clone()))
+			}
+			if et != 0x8100 {
+				yield(Eth(nil, et, pl.Clone()))
+			}
+		}
+	}
 	for _, in := range inner {
 		yield(Eth(nil, in.et, in.n.Clone()))
 		for _, v := range []*wire.N{Vlan(3, 0, 100), Vlan(0, 0, 1), Vlan(7, 1, 0xfff), Vlan(5, 0, 0), Vlan(0, 0, 0)} {
